@@ -1,0 +1,139 @@
+//go:build verif
+
+package abft
+
+// Machine-checked contracts for /verif (read as text by the VC generator; no code).
+//
+// Ghost model of the consensus store as seen by the orderer:
+//   stEpoch, stValidators : current epoch and validator set
+//   groots[f]             : the roots registered for frame f (what GetFrameRoots returns)
+//   nAddRoot, gAddRootSpf, gAddRootEv : record of AddRoot calls
+//   gSetFrameN, gSetFrameEv, gSetFrameV : record of SetFrame calls on mutable events
+//@ ghost stEpoch int
+//@ ghost stValidators *pos.Validators
+//@ ghost groots[int] []election.RootAndSlot
+//@ ghost nAddRoot int
+//@ ghost gAddRootSpf int
+//@ ghost gAddRootEv dag.Event
+//@ ghost gSetFrameN int
+//@ ghost gSetFrameEv int
+//@ ghost gSetFrameV int
+//@
+//@ iface EventSource.GetEvent
+//@   pure
+//@   ensures result != nil
+//@ iface EventSource.HasEvent
+//@   pure
+//@ funcfield Orderer.crit
+//@   ensures true
+//@ funcfield Store.crit
+//@   ensures true
+//@
+//@ // assumed of the store (to be discharged for GetFrameRoots/AddRoot by C33)
+//@ trusted func (*Store).GetEpoch
+//@   requires s != nil
+//@   ensures  result == stEpoch
+//@ trusted func (*Store).GetValidators
+//@   requires s != nil
+//@   ensures  result == stValidators && valid(result) && len(result.values) >= 1
+//@ trusted func (*Store).GetFrameRoots
+//@   requires s != nil
+//@   ensures  result == groots[f] && forall(j, 0, len(result), result[j].Slot.Frame == f)
+//@ trusted func (*Store).AddRoot
+//@   requires s != nil
+//@   modifies groots[*], nAddRoot, gAddRootSpf, gAddRootEv
+//@   ghost nAddRoot = old(nAddRoot) + 1
+//@   ghost gAddRootSpf = selfParentFrame
+//@   ghost gAddRootEv = root
+//@
+//@ // obs(p, e, roots, vv, k, i): validator index i created one of the first k roots that forkless-cause e
+//@ spec obs(p *Orderer, e dag.Event, roots []election.RootAndSlot, vv *pos.Validators, k int, i int) bool = k > 0 && (obs(p, e, roots, vv, k-1, i) || (p.dagIndex.ForklessCause(e.ID(), roots[k-1].ID) && vv.cache.indexes[roots[k-1].Slot.Validator] == i))
+//@ // wobs(p, e, roots, vv, k, n): total weight of the validator indices below n that satisfy obs(.., k, .)
+//@ spec wobs(p *Orderer, e dag.Event, roots []election.RootAndSlot, vv *pos.Validators, k int, n int) int = ite(n <= 0, 0, wobs(p, e, roots, vv, k, n-1) + ite(obs(p, e, roots, vv, k, n-1), vv.cache.weights[n-1], 0))
+//@ // fcq: e is forkless-caused by roots (of one frame) whose creators hold a quorum of weight
+//@ spec opaque fcq(p *Orderer, e dag.Event, roots []election.RootAndSlot, vv *pos.Validators) bool = exists(k, 0, len(roots) + 1, wobs(p, e, roots, vv, k, len(vv.values)) >= vv.cache.totalWeight*2/3 + 1)
+//@ spec Fcq(p *Orderer, e dag.Event, g int) bool = fcq(p, e, groots[g], stValidators)
+//@
+//@ lemma wobs_eq(p *Orderer, e dag.Event, roots []election.RootAndSlot, vv *pos.Validators, k int, a []bool, n int) by induction(n)
+//@   requires forall(i, 0, n, a[i] == obs(p, e, roots, vv, k, i))
+//@   ensures  wsum(a, vv.cache.weights, n) == wobs(p, e, roots, vv, k, n)
+//@
+//@ lemma wobs_zero(p *Orderer, e dag.Event, roots []election.RootAndSlot, vv *pos.Validators, n int) by induction(n)
+//@   ensures  wobs(p, e, roots, vv, 0, n) == 0
+//@
+//@ func (*Orderer).forklessCausedByQuorumOn
+//@   requires p != nil && p.store != nil && p.dagIndex != nil && e != nil
+//@   ensures  result == Fcq(p, e, f)
+//@   loop 1 modifies observedCounter.sum, observedCounter.already[*]
+//@   loop 1 invariant 0 <= _k && _k <= len(_range) && cinv(observedCounter) && observedCounter.validators.values == stValidators.values && observedCounter.validators.cache.weights == stValidators.cache.weights && observedCounter.validators.cache.indexes == stValidators.cache.indexes && observedCounter.validators.cache.totalWeight == stValidators.cache.totalWeight
+//@   loop 1 invariant forall(i, 0, len(stValidators.values), observedCounter.already[i] == obs(p, e, _range, stValidators, _k, i))
+//@   loop 1 invariant forall(kk, 0, _k + 1, wobs(p, e, _range, stValidators, kk, len(stValidators.values)) < stValidators.cache.totalWeight*2/3 + 1)
+//@   loop 1 hint use wobs_zero(p, e, _range, stValidators, len(stValidators.values))
+//@   loop 1 hint use wobs_eq(p, e, _range, stValidators, _k, observedCounter.already, len(stValidators.values))
+//@   loop 1 hint assert wobs(p, e, _range, stValidators, _k, len(stValidators.values)) < stValidators.cache.totalWeight*2/3 + 1
+//@   loop 1 exithint use wobs_eq(p, e, _range, stValidators, _k, observedCounter.already, len(stValidators.values)); use wobs_eq(p, e, _range, stValidators, _k + 1, observedCounter.already, len(stValidators.values))
+//@   hint unfold fcq(p, e, groots[f], stValidators)
+//@
+//@ // frame of the self-parent (0 if there is none)
+//@ spec spframe(p *Orderer, e dag.Event) int = ite(e.SelfParent() == nil, 0, p.input.GetEvent(deref(e.SelfParent())).Frame())
+//@ // isExit(p, e, lim, fl): fl is the value at which the frame search stops: the least g >= spframe with g >= lim or !Fcq(p, e, g)
+//@ spec isExit(p *Orderer, e dag.Event, lim int, fl int) bool = fl >= spframe(p, e) && (fl >= lim || !Fcq(p, e, fl)) && forall(g, spframe(p, e), fl, Fcq(p, e, g) && g < lim)
+//@
+//@ func (*Orderer).calcFrameIdx
+//@   requires p != nil && p.store != nil && p.input != nil && p.dagIndex != nil && e != nil
+//@   requires spframe(p, e) <= 2147483646 && e.Frame() <= 2147483646
+//@   ensures  result0 == spframe(p, e)
+//@   ensures  [search] exists(fl, 0, 4294967296, isExit(p, e, ite(checkOnly, e.Frame(), spframe(p, e) + 100), fl) && result1 == max(1, fl))
+//@   loop 1 invariant f >= selfParentFrame && forall(g, selfParentFrame, f, Fcq(p, e, g) && g < maxFrameToCheck) && f <= 2147483746
+//@
+//@ // accept(p, e): the claimed frame c is allowed: c >= 1, c is at least the self-parent's frame and every frame
+//@ // from the self-parent's up to c-1 has a quorum of roots forkless-causing e (for an event without
+//@ // self-parent, frame 1 is always allowed)
+//@ spec accept(p *Orderer, e dag.Event) bool = (e.Frame() >= 1 && e.Frame() >= spframe(p, e) && forall(g, spframe(p, e), e.Frame(), Fcq(p, e, g))) || (spframe(p, e) == 0 && e.Frame() == 1)
+//@
+//@ func (*Orderer).checkAndSaveEvent
+//@   requires p != nil && p.store != nil && p.input != nil && p.dagIndex != nil && e != nil
+//@   requires spframe(p, e) <= 2147483646 && e.Frame() <= 2147483646
+//@   modifies groots[*], nAddRoot, gAddRootSpf, gAddRootEv
+//@   ensures  [accept] (result0 == nil) == old(accept(p, e))
+//@   ensures  [reject] result0 != nil ==> nAddRoot == old(nAddRoot) && result0 == ErrWrongFrame
+//@   ensures  [spf] result0 == nil ==> result1 == spframe(p, e)
+//@   ensures  [roots] result0 == nil ==> (spframe(p, e) != e.Frame()) == (nAddRoot == old(nAddRoot) + 1) && nAddRoot <= old(nAddRoot) + 1 && (nAddRoot > old(nAddRoot) ==> gAddRootSpf == spframe(p, e) && gAddRootEv == e)
+//@
+//@ package github.com/Fantom-foundation/lachesis-base/inter/dag
+//@ iface MutableEvent.SetFrame
+//@   params v
+//@   modifies gSetFrameN, gSetFrameEv, gSetFrameV
+//@   ghost gSetFrameN = old(gSetFrameN) + 1
+//@   ghost gSetFrameEv = self
+//@   ghost gSetFrameV = v
+//@ package github.com/Fantom-foundation/lachesis-base/abft
+//@
+//@ func (*Orderer).Build
+//@   requires p != nil && p.store != nil && p.input != nil && p.dagIndex != nil && e != nil && p.crit != nil
+//@   requires spframe(p, e) <= 2147483546 && e.Frame() <= 2147483646
+//@   modifies gSetFrameN, gSetFrameEv, gSetFrameV
+//@   ensures  result == nil && gSetFrameN == old(gSetFrameN) + 1 && gSetFrameEv == e
+//@   ensures  [highest] exists(fl, 0, 4294967296, isExit(p, e, spframe(p, e) + 100, fl) && gSetFrameV == max(1, fl))
+//@
+//@ // a frame assigned by Build passes the acceptance test of Process: if claimed = max(1, fl) for the exit value fl of
+//@ // the unbounded search, then claimed is allowed in the sense of accept
+//@ lemma build_accepted(p *Orderer, e dag.Event, fl int, claimed int)
+//@   requires isExit(p, e, spframe(p, e) + 100, fl) && claimed == max(1, fl)
+//@   ensures  (claimed >= 1 && claimed >= spframe(p, e) && forall(g, spframe(p, e), claimed, Fcq(p, e, g))) || (spframe(p, e) == 0 && claimed == 1)
+//@
+//@ // ---- temporary event IDs (uniqueID.sample) ----
+//@ // be24(a, n): big-endian value of the first n bytes of a 24-byte array
+//@ spec be24(a [24]byte, n int) int = ite(n <= 0, 0, be24(a, n-1)*256 + a[n-1])
+//@ lemma be24_zero(a [24]byte, m int) by induction(m)
+//@   requires forall(j, 0, m, a[j] == 0)
+//@   ensures  be24(a, m) == 0
+//@ lemma be24_copy(a [24]byte, b []byte, m int, n int) by induction(n) { use be24_zero(a, m) }
+//@   requires m >= 0 && n >= 0 && forall(j, 0, m, a[j] == 0) && forall(j, 0, n, a[m + j] == b[j])
+//@   ensures  be24(a, m + n) == beval(b, n)
+//@ func (*uniqueID).sample
+//@   requires u != nil && u.counter != nil && bigv[common.Big1] == 1 && common.Big1 != nil && 0 <= bigv[u.counter] && bigv[u.counter] + 1 < P192
+//@   modifies bigv[u.counter], u.counter
+//@   ensures  [next] bigv[u.counter] == old(bigv[u.counter]) + 1 && u.counter == old(u.counter)
+//@   ensures  [injective] be24(result, 24) == bigv[u.counter]
+//@   hint use be24_copy(result, b, 24 - len(b), len(b))
